@@ -105,6 +105,43 @@ theorem C06_incompatible_same_name_rejected (aesni : Bool) (raw : List Cfg) (sni
   | ok g' => exact absurd ⟨g', hl⟩ hnot
   | error j => rw [hl] at hmk; exact ⟨2, by simp [pipeline, hmk, Err.cls]⟩
 
+/-- The obligation behind `assertClientCertsCompatible`, made explicit: two TLS sites that share an SNI
+key and differ in NOTHING but the client-certificate mode (request / require / verify_if_given /
+require-and-verify / none — the same CA list in the same order, everything else equal) are rejected;
+an on/off comparison is not enough. -/
+theorem C06_clientauth_modes_must_agree (aesni : Bool) (before between after : List Cfg) (c : Cfg) (m : Nat)
+    (sni : Bytes) (la : Option Bytes) (hm : m ≠ c.clientAuth)
+    (hdom : inDomain (before ++ c :: between ++ { c with clientAuth := m } :: after) = true)
+    (hen : (before ++ c :: between ++ { c with clientAuth := m } :: after).all (·.enabled) = true)
+    (hca : caMissing (before ++ c :: between ++ { c with clientAuth := m } :: after) = false) :
+    ∃ n, pipeline aesni (before ++ c :: between ++ { c with clientAuth := m } :: after) sni la = .error n := by
+  apply C06_incompatible_same_name_rejected aesni _ sni la hdom hen hca
+  have hpair : sameSettings aesni c { c with clientAuth := m } = false := by
+    unfold sameSettings
+    have : (effective aesni c == effective aesni { c with clientAuth := m }) = false := by
+      rw [beq_eq_false_iff_ne]
+      intro h
+      have := congrArg Built.clientAuth h
+      exact hm this.symm
+    rw [this]; rfl
+  have hcons : ∀ rest : List Cfg, conflicting aesni (c :: between ++ { c with clientAuth := m } :: rest) = true := by
+    intro rest
+    rw [List.cons_append]
+    unfold conflicting
+    rw [Bool.or_eq_true, List.any_eq_true]
+    left
+    exact ⟨{ c with clientAuth := m }, by simp, by simp [hpair]⟩
+  have happ : ∀ (l1 l2 : List Cfg), conflicting aesni l2 = true → conflicting aesni (l1 ++ l2) = true := by
+    intro l1 l2 h
+    induction l1 with
+    | nil => exact h
+    | cons x xs ih =>
+      show conflicting aesni (x :: (xs ++ l2)) = true
+      unfold conflicting
+      rw [ih]; simp
+  have := happ before _ (hcons after)
+  simpa [List.append_assoc] using this
+
 /-- A consistent TLS site set (all enabled, CAs readable, no same-key conflict): whenever the
 callback answers with a definite config, it is the config `wanted` names — the last site
 declared under the first declared key among: the server name, the name with 1, 2, … leading
